@@ -70,3 +70,8 @@ func init() {
 	props["C08"] = &propInfo{engine: "B", level: "exploration", minOutcomes: 1, mustOutcomes: []string{"roundtrip-ok"},
 		assume: []string{"tree equality = node kind, token value, identifier flag, raw-vs-interpolating flag of strings and child structure; positions, comments and blank lines are ignored"}}
 }
+
+func init() {
+	props["C01"] = &propInfo{engine: "B", level: "exploration", minOutcomes: 2, mustOutcomes: []string{"matched", "fired"},
+		assume: []string{"'an equal value' = Go equality for scalars, deep equality for lists and maps; event states hold ECAL values (numbers are float64)", "left open: a rule suppressing itself, regular expressions against a NULL state value, wildcard or empty segments inside an event kind"}}
+}
